@@ -43,7 +43,7 @@ CLAIMS = {
             "Props/C11.lean"),
 }
 
-READY = ["C01", "C02", "C03", "C06", "C07", "C13", "C14", "C15", "C19", "C20"]   # properties whose Props file holds real theorems
+READY = ["C01", "C02", "C03", "C04", "C06", "C07", "C09", "C10", "C11", "C13", "C14", "C15", "C19", "C20"]   # properties whose Props file holds real theorems
 CLAIMS.update({
     "C13": ("Lean theorems over exact rationals: the delivery tick ceil(a*tps) is never before the arrival and is the first such tick; it is monotone in the arrival; "
             "with rows in arrival order each tick returns exactly the pipelines whose delivery tick it is, in file order, exactly once, none after the end; the gentrace "
